@@ -115,11 +115,19 @@ def cube_specs(draw, max_nd=3, min_nd=0, max_n=40, tails=((), (), (2,), (3,), (1
             if not d["big"]:
                 d["data"] = [min(x, 1) for x in d["data"]]
                 d["common"] = min(d["common"], 2)
+    alias = None
+    if nd >= 2 and not nbig and draw(st.integers(0, 7)) == 0:
+        # the SAME object may serve as two dimensions of one cube (the repository's tests do ccube([idx, idx]))
+        i = draw(st.integers(0, nd - 2))
+        scaffold = _prod(_prod(d["tail"]) for d in dims)
+        if scaffold * _prod(dims[i]["tail"]) <= 36:
+            dims[i + 1] = dict(dims[i])
+            alias = [i, i + 1]
     mode = draw(st.sampled_from(["inferred", "exact", "padded"]))
     pads = draw(st.lists(st.integers(1, 3), min_size=nd, max_size=nd))
     return {"N": N, "dims": dims, "shape_mode": mode, "pads": pads,
             "readonly": draw(st.sampled_from([False, False, False, True, "strided"])),
-            "reverse": draw(st.booleans())}
+            "reverse": draw(st.booleans()), "alias": alias}
 
 
 def fact_specs(N, dtypes=("float", "int"), max_k=3, dyadic=True, magnitudes=False):
@@ -450,6 +458,8 @@ def make_ccube(case, dense=None, commons=None):
     shape_arg, _ = cube_shape(case, dense)
     idxs = [build_index(a, c, readonly=case.get("readonly", False), reverse=bool(case.get("reverse")))
             for a, c in zip(dense, commons)]
+    if case.get("alias") and commons[case["alias"][0]] == commons[case["alias"][1]]:
+        idxs[case["alias"][1]] = idxs[case["alias"][0]]
     return ccube(idxs, shape_arg), idxs
 
 
@@ -474,6 +484,8 @@ def make_xcube(case, dense=None, dtypes=None, force_explicit=False):
             if a.size and int(a.max()) > info.max:
                 dt = "int64"
         arrs.append(a.astype(dt))
+    if case.get("alias"):
+        arrs[case["alias"][1]] = arrs[case["alias"][0]]
     if shape_arg is None:
         used = tuple(int(a.max()) + 1 for a in dense)
     else:
